@@ -23,7 +23,7 @@ EXPLANATION = (
     'defaults go through apply; (e) Enum extension validates every value '
     'against the base, Schema compatibility requires equal key sets.  The '
     'containment between acceptance sets itself is not decided.')
-FLOORS = {'C04.a': 9, 'C04.b': 6, 'C04.c': 6, 'C04.d': 1, 'C04.e': 2, 'C04.f': 4, 'C04.g': 2}
+FLOORS = {'C04.a': 9, 'C04.b': 6, 'C04.c': 6, 'C04.d': 1, 'C04.e': 2, 'C04.f': 4, 'C04.g': 2, 'C04.h': 2}
 FILES = ['pyglove/core/typing/value_specs.py', 'pyglove/core/typing/class_schema.py',
          'pyglove/core/typing/key_specs.py', 'pyglove/core/typing/type_conversion.py']
 VS = 'pyglove.core.typing.value_specs.'
@@ -476,6 +476,43 @@ def rule_f(ctx):
   return n
 
 
+def rule_h(ctx):
+  """Extension narrows also where the extending spec says nothing: a side that
+  is unbounded in the child (bound is None) takes over the base's bound on
+  every path - otherwise the "extended" spec accepts values its base rejects."""
+  idx = ctx.index
+  import re as _re
+  n = 0
+  for q in ('pyglove.core.typing.key_specs.ListKey.extend', VS + 'Number._extend'):
+    f = idx.func(q)
+    g = C.cfg_of(f.node)
+    for b_ in ('min_value', 'max_value'):
+      pat = _re.compile(r'^(self\.)?_?' + b_ + r' is None$')
+      tests = [t for t in g.nodes if t.kind == 'test' and pat.match(A.unparse(t.ast))]
+      if not tests:
+        continue
+      inherit = {k.id for k in g.nodes if k.kind == 'stmt' and isinstance(k.ast, ast.Assign)
+                 and A.unparse(k.ast.value) in (f'base.{b_}', f'base._{b_}')}
+      for t in tests:
+        n += 1
+        bad = None
+        for m, lab in t.succ:
+          if lab != 'true':
+            continue
+          if m.id in inherit:
+            continue
+          seen, parent = g.reach(m, blocked_nodes=inherit, follow_exc=False)
+          seen.add(m.id)
+          if g.exit.id in seen:
+            bad = g.witness_str(parent, g.exit)
+        ctx.ob('C04.h', f'{f.fq}#{b_}', bad is None,
+               f'a child without `{b_}` inherits the base\'s `{b_}` on every path (extension only narrows)',
+               f'{f.module.relpath}:{t.lineno}',
+               f'the child can stay unbounded although the base is bounded ({bad}): it accepts values the base rejects')
+  if n < 2:
+    raise AnalysisError('bound inheritance tests not found')
+
+
 def run(ctx):
   ctx.consult(*FILES)
   rule_a(ctx)
@@ -484,6 +521,7 @@ def run(ctx):
   rule_d(ctx)
   rule_e(ctx)
   rule_f(ctx)
+  rule_h(ctx)
   S.optional_truthiness_obligations(ctx, 'C04.g', ['pyglove/core/typing/value_specs.py', 'pyglove/core/typing/key_specs.py', 'pyglove/core/typing/class_schema.py'], '0 is a bound')
   ctx.assume('Callable/Functor compatibility is outside the property\'s quantifier')
   ctx.assume('user transforms cannot be compared and are ignored')
